@@ -16,8 +16,8 @@ ASSUMPTIONS = ['stub network = Conv2d(kernel (H,4), stride 4) with a blank bias:
                'float32 logits compared within 1e-4; sparse entries with posterior within +-20 % of 1e-4 are not judged',
                'for truncated lines (padded batch wider than 480*batch) only order-independence and the window start are required']
 N = {'quick': 160, 'thorough': 8000}
-CLASSES = ['mixed', 'mixed', 'equal_widths', 'tiny', 'long', 'page_ocr', 'empty_or_single', 'mixed', 'extreme_logits', 'masked_alphabet', 'embedding', 'page_ocr_many', 'after_fault']
-REQUIRED = ['calls_after_an_injected_network_fault', 'page_ocr_lines_recognised_again_after_recropping', 'masked_alphabet_lists', 'embedding_lists', 'page_ocr_pages_over_512_lines', 'lists', 'lines_checked', 'window_checked', 'dense_compared', 'sparse_compared', 'tight_compared', 'nologits_checked', 'permutations_checked', 'truncated_lines', 'page_ocr_lines', 'multi_batch_lists', 'extreme_logit_lists']
+CLASSES = ['mixed', 'mixed', 'equal_widths', 'tiny', 'long', 'page_ocr', 'empty_or_single', 'mixed', 'extreme_logits', 'masked_alphabet', 'embedding', 'page_ocr_many', 'after_fault', 'cold_logits', 'changed_limit']
+REQUIRED = ['cold_logit_lists', 'lists_after_the_pixel_budget_was_changed', 'calls_after_an_injected_network_fault', 'page_ocr_lines_recognised_again_after_recropping', 'masked_alphabet_lists', 'embedding_lists', 'page_ocr_pages_over_512_lines', 'lists', 'lines_checked', 'window_checked', 'dense_compared', 'sparse_compared', 'tight_compared', 'nologits_checked', 'permutations_checked', 'truncated_lines', 'page_ocr_lines', 'multi_batch_lists', 'extreme_logit_lists']
 H = 16
 CHARS = list('abcdefgh ')
 
@@ -37,6 +37,11 @@ def setup(ctx):
     # a model with a restricted alphabet: two symbols always get a logit of -inf (posterior 0: sparse storage must not keep anything for them)
     ctx.json_masked, ctx.net_masked = stubs.make_ocr_engine_dir(ctx.tmpdir + '/eng_masked', CHARS, H=H, seed=7, blank_bias=2.0, wscale=1.0, masked=(1, 4))
     ctx.engines_masked = {bs: PytorchEngineLineOCR(ctx.json_masked, torch.device('cpu'), batch_size=bs) for bs in (1, 3, 8)}
+    # a network whose scores are all far below zero (frames with every class below -87, nothing above 80): the posteriors are still well defined
+    ctx.json_cold, ctx.net_cold = stubs.make_ocr_engine_dir(ctx.tmpdir + '/eng_cold', CHARS, H=H, seed=13, blank_bias=2.0, wscale=6.0, base_bias=-230.0)
+    ctx.engines_cold = {bs: PytorchEngineLineOCR(ctx.json_cold, torch.device('cpu'), batch_size=bs) for bs in (1, 3, 8)}
+    # engines whose pixel budget is re-assigned after construction (user_scripts/select_embed_id.py does that)
+    ctx.engines_lim = {bs: PytorchEngineLineOCR(ctx.json, torch.device('cpu'), batch_size=bs) for bs in (1, 2, 4)}
     # a two-input model (image, embedding id); the engines live for the whole run and their embed_id is re-assigned from case to case (user_scripts/select_embed_id.py does that)
     ctx.json_emb, ctx.net_emb = stubs.make_ocr_engine_dir(ctx.tmpdir + '/eng_emb', CHARS, H=H, seed=9, blank_bias=2.0, wscale=1.0, embed_num=4, embed_id='mean')
     ctx.engines_emb = {bs: PytorchEngineLineOCR(ctx.json_emb, torch.device('cpu'), batch_size=bs) for bs in (1, 2, 5)}
@@ -72,6 +77,12 @@ def gen(rng, i, ctx):
         case['batch_size'] = int(rng.choice([1, 2, 5]))
         case['embed_id'] = int(rng.integers(0, 5))
         case['widths'] = [int(x) for x in rng.choice([8, 40, 100, 300, 470, 900, 2000], size=int(rng.integers(1, 9)))]
+    if cls == 'cold_logits':
+        case['mode'], case['batch_size'] = str(rng.choice(['sparse', 'tight_sparse'])), int(rng.choice([1, 3, 8]))
+    if cls == 'changed_limit':
+        case['batch_size'] = int(rng.choice([1, 2, 4]))
+        case['limit'] = int(480 * case['batch_size'] * float(rng.choice([0.5, 2.0, 1.5])))
+        case['widths'] = [int(x) for x in rng.integers(100, 2 * case['limit'], size=int(rng.integers(1, 6)))]
     if cls == 'page_ocr_many':
         n = int(rng.choice([513, 600, 777, 1025, 1300]))
         case['widths'] = [int(x) for x in rng.integers(4, 40, size=n)]
@@ -138,6 +149,13 @@ def check(case, mon, ctx):
     if case['cls'] == 'masked_alphabet':
         eng, net = ctx.engines_masked[bs], ctx.net_masked
         mon.count('masked_alphabet_lists')
+    if case['cls'] == 'cold_logits':
+        eng, net = ctx.engines_cold[bs], ctx.net_cold
+        mon.count('cold_logit_lists')
+    if case['cls'] == 'changed_limit':
+        eng = ctx.engines_lim[bs]
+        eng.max_input_horizontal_pixels = case['limit']
+        mon.count('lists_after_the_pixel_budget_was_changed')
     if case['cls'] == 'embedding':
         eng = ctx.engines_emb[bs]
         eng.embed_id = case['embed_id']                 # re-assigned on a long-lived engine that recognised other lists with other ids before
@@ -183,7 +201,7 @@ def check(case, mon, ctx):
     if not (len(tr) == len(lg) == len(co) == k):
         mon.violation('one-result-per-input-position', {'n_lines': k, 'n_results': [len(tr), len(lg), len(co)]})
         return
-    limit = 480 * bs
+    limit = int(eng.max_input_horizontal_pixels)       # (480 * batch size unless it was re-assigned)
     widest_padded = (int(np.ceil(max(ws) / 32.0) * 32) + 64) if ws else 0
     if ws and sum(int(np.ceil(w / 32.0) * 32) for w in ws) > limit:
         mon.count('multi_batch_lists')
